@@ -9,6 +9,8 @@ R19.1 every index / sub-slice of the line-start table (`NewlineCache::newlines`,
       answers Err(0)).
 R19.3 the character loop of byte_to_line_num_and_col_num, read as a finite transducer over {CR, LF, other}, counts every character
       except an LF that immediately follows a CR (finite-model comparison; LF only as the last character of a line)
+R19.5 no byte offset that reaches Span::new or a slice bound is formed as `.. + line.len() + 1` from an item of str::lines()
+      (lines() strips CR LF as well as LF)
 R19.2 the premises of T1/T2: `NewlineCache::new` builds the table as the one-element array [0]; every other function that
       obtains `&mut newlines` only hands it to `extend`/`push` (nothing removes, truncates, clears or overwrites).
 """
@@ -383,7 +385,84 @@ def r193(facts, res):
                % (len(seen), len(ps)))
 
 
+def r195(facts, res):
+    """`str::lines()` strips "\\r\\n" as well as "\\n".  A byte offset computed as `.. + line.len() + 1` from a line obtained that way
+    is right for LF text only: on CR LF text it points at the LF of the terminator, every later line is mislocated, and the
+    slicing arithmetic built on it can underflow.  No offset that reaches Span::new or a slice bound may be formed like that."""
+    R = 'R19.5'
+    n = 0
+    nbad = 0
+    for b in facts.lib_bodies(['cfgrammar', 'lrlex', 'lrpar', 'lrtable']):
+        if b.from_expansion:
+            continue
+        # len() calls on a &str that is the item of a Lines iterator (possibly Peekable / Enumerate ..)
+        seeds = []
+        for bb, t in b.calls_named('len'):
+            c = callee_of(t)
+            if not c or 'core::str' not in c['path'] or not t['args']:
+                continue
+            r, projs, via = b.op_root(t['args'][0], stop_named=False)
+            for db, kind, d in b.defs().get(r, []):
+                if kind == 'call' and cname(d) == 'next' and 'core::str::iter::Lines' in ((callee_of(d) or {}).get('self_ty') or ''):
+                    seeds.append((bb, t['dest']['l']))
+        if not seeds:
+            continue
+        n += len(seeds)
+        # forward: locals holding (.. + len)
+        tainted = {l: 'len' for _bb, l in seeds}
+        plus1 = set()
+        changed = True
+        while changed:
+            changed = False
+            for bb in sorted(b.reachable()):
+                for st in b.blocks[bb]['stmts']:
+                    if st['k'] != 'assign' or st['lhs']['p']:
+                        continue
+                    lhs = st['lhs']['l']
+                    rv = st['rv']
+                    srcs = []
+                    if 'use' in rv:
+                        pl = op_place(rv['use'])
+                        if pl:
+                            srcs.append(pl['l'])
+                    if 'bin' in rv and rv['bin'] in ('Add', 'AddWithOverflow', 'AddUnchecked'):
+                        la, lb = op_local(rv['a']), op_local(rv['b'])
+                        ca = rv['a'].get('const', {}).get('int') if isinstance(rv['a'], dict) else None
+                        cb = rv['b'].get('const', {}).get('int') if isinstance(rv['b'], dict) else None
+                        for lx, cx in ((la, cb), (lb, ca)):
+                            if lx in tainted:
+                                if cx == 1 and lhs not in plus1:
+                                    plus1.add(lhs)
+                                    changed = True
+                                srcs.append(lx)
+                    for sx in srcs:
+                        if sx in tainted and lhs not in tainted:
+                            tainted[lhs] = 'flow'
+                            changed = True
+                        if sx in plus1 and lhs not in plus1:
+                            plus1.add(lhs)
+                            changed = True
+        # sinks: Span::new arguments and Range/RangeFrom aggregates
+        for bb, t in b.calls():
+            if (cpath(t) or '').endswith('span::Span::new'):
+                for a in t['args']:
+                    if op_local(a) in plus1:
+                        nbad += 1
+                        res.bad(R, 'lines-plus-one:%s' % strip_generics(b.path), loc_of(b, bb), 'a Span bound is computed as `.. + line.len() + 1` with `line` taken from str::lines(): lines() also strips '
+                                '"\\r\\n", so on CR LF text the offset lands on the LF of the terminator (later lines are mislocated; the arithmetic around it can underflow)', {'function': b.path})
+        for bb in sorted(b.reachable()):
+            for st in b.blocks[bb]['stmts']:
+                if st['k'] == 'assign' and isinstance(st['rv'].get('agg'), dict) and st['rv']['agg'].get('adt', '').startswith('core::ops::range::Range'):
+                    if any(op_local(o) in plus1 for o in st['rv']['ops']):
+                        nbad += 1
+                        res.bad(R, 'lines-plus-one-slice:%s' % strip_generics(b.path), loc_of(b, bb), 'a slice bound is computed as `.. + line.len() + 1` with `line` taken from str::lines() (wrong on CR LF text)', {'function': b.path})
+    if nbad == 0:
+        res.ok(R, 'no-lines-plus-one', '', 'no byte offset is formed as `line.len() + 1` from a str::lines() item (%d length reads of such items examined)' % n)
+    res.floor(R, 'length reads of str::lines() items', n, 1)
+
+
 def run(facts, res):
+    r195(facts, res)
     r191(facts, res)
     r192(facts, res)
     r193(facts, res)
